@@ -190,21 +190,32 @@ def judge(ctx, case, ctext, lam_params, b, inputs, nodes, rec, parsed, msg):
             # a sub-expression inside a comprehension that does not depend on the targets: value under outer bindings
             st_, v = OR.evaluate(key, b, list(b))
             if kd in inside_comps and kd not in by_dump:
-                occ, seen_inside = OR.inside_values(ctext, kd, b, list(b))
+                occ, seen_inside, loop_vars = OR.inside_values(ctext, kd, b, list(b))
                 if occ and all(occ):
                     # every occurrence uses a loop variable in scope there (which may hide an outer variable of the same
                     # name): what Python computed for it during the iteration are the only values it ever had
-                    ctx.count("judged(inside a comprehension, depends on its loop variables)")
                     texts = [arepr(x) for x in seen_inside]
-                    if not texts:
-                        fail("soundness:value-of-unevaluated", "%r is shown as %s but Python never evaluated it (it depends on "
-                             "the loop variables of a comprehension whose body was not reached)" % (key, val), key)
+                    if val in texts or ADDR.sub("0x", val) in [ADDR.sub("0x", t) for t in texts if ADDR.search(t)]:
+                        ctx.count("judged(inside a comprehension, depends on its loop variables)")
+                        continue
+                    hidden = loop_vars & set(b)
+                    if hidden and st_ == "ok" and val == arepr(v):
+                        # the shown value is what the expression gives with the OUTER variable that the loop variable hides
+                        ctx.count("judged(inside a comprehension, depends on its loop variables)")
+                        fail("soundness:wrong-value", "%r (inside a comprehension) uses the loop variable(s) %s, which hide outer "
+                             "variables of the same name; it is shown as %s, the value computed from the hidden outer variable%s" % (
+                                 key, sorted(hidden), val, ("; during Python's evaluation it only had the values %s" %
+                                                            " / ".join(sorted(set(texts))[:6])) if texts else
+                                 "; Python never evaluated it"), key)
                         return
-                    if val not in texts and ADDR.sub("0x", val) not in [ADDR.sub("0x", t) for t in texts if ADDR.search(t)]:
+                    if texts and st_ != "ok":
+                        # reached by Python, not computable without the loop variables, and never this value
+                        ctx.count("judged(inside a comprehension, depends on its loop variables)")
                         fail("soundness:wrong-value", "%r (inside a comprehension, depending on its loop variables) is shown as "
                              "%s; during Python's evaluation it only had the values %s" % (key, val, " / ".join(sorted(set(texts))[:6])), key)
                         return
-                    continue
+                    # otherwise as before: a value that does not need the loop variables (a branch not taken, an overridden
+                    # key) is judged under the outer bindings below, an uncomputable one is not judged
             if st_ != "ok":
                 walrus_in_comp = any(
                     isinstance(sub, ast.NamedExpr) and sub.target.id == key
